@@ -25,6 +25,7 @@ import Kvass.Proofs.CoordGcWhole
 import Kvass.Proofs.LoopStable
 import Kvass.Proofs.LoopRepair
 import Kvass.Proofs.LoopStay
+import Kvass.Proofs.CoordRelief
 
 namespace Kvass.Props.C03
 open Kvass Kvass.Coord Kvass.Spec
@@ -136,6 +137,45 @@ theorem C03_scaleUp (swr : Swr) (sc : Sched) (inp : Input)
     apply Coord.clamp_exceeds
     · rw [← hlen]; exact this
     · exact hmax
+
+/-- **C03 (progress of relief)**, the counterpart of the scale-up clause for an overloaded shard:
+    all shards in sync, relief enabled, the cycle runs to its end without crashing, more shards are
+    allowed.  If after `gcTargets` a shard is at or above the process-series trigger, its settled load
+    (targets in normal state, healthy, scraped three times) exceeds the limit and none of its settled
+    targets exceeds the limit alone, then the cycle starts a relief move (a placement of kind 1 is
+    logged) or its last request asks for more shards than there are.  For every schedule and every
+    `seriesWithRate`. -/
+theorem C03_relief_progress (swr : Swr) (sc : Sched) (inp : Input)
+    (hsync : ∀ p ∈ inp.probes, inSync p = true)
+    (hmp : 0 < inp.opt.maxProc) (hmh : 0 ≤ inp.opt.maxHead)
+    (hnn : ∀ k, 0 ≤ (globalOf (infos0 inp) inp.explore k).series ∧ 0 ≤ (globalOf (infos0 inp) inp.explore k).total)
+    (hen : Gen.allevDisabled inp.opt = false)
+    (hne : stopsEarly inp = false) (hnc : (cycle swr sc inp).crashed = false)
+    (hmax : (inp.probes.length : Int) < inp.opt.maxShard)
+    (i : Nat) (s : SI) (hs : (startCS inp).shards[i]? = some s) (hch : s.changeable = true)
+    (htr : Gen.procTrigger swr inp.opt s.rt = true) (hnb : NB inp.opt (startCS inp) i)
+    (hload : Gen.procExpect swr inp.opt < loadProc s) :
+    (∃ pl ∈ (cycle swr sc inp).log, pl.kind = 1) ∨
+    ∃ k, (cycle swr sc inp).scales.getLast? = some k ∧ (inp.probes.length : Int) < k :=
+  relief_progress swr sc inp hsync hmp hmh hnn hen hne hnc hmax i s hs hch htr hnb hload
+
+/-- non-vacuity: shard 0 reports two settled targets of 60 series each (limit 100).  With an empty
+    second shard one of them is moved; with a second shard that has no room a third shard is asked for -/
+def exOver (other : List (Hash × St)) (rt : Int) : Input :=
+  { opt := ⟨0, 100, 5, 0, false, false⟩, active := [1, 2, 3], explore := [],
+    probes := [
+      { ready := true, status := some [(1, ⟨.good, 60, 60, .normal, 5⟩), (2, ⟨.good, 60, 60, .normal, 5⟩)],
+        rt1 := some (⟨120, 120, .none⟩, true), pushOk := true, rt2 := none, postOk := true },
+      { ready := true, status := some other, rt1 := some (⟨rt, rt, .fresh⟩, true), pushOk := true, rt2 := none, postOk := true }] }
+
+example : ((cycle (fun x r => x * r / 10) { allevProc := [[1, 2], []] } (exOver [] 0)).log.map (·.kind),
+      (cycle (fun x r => x * r / 10) { allevProc := [[1, 2], []] } (exOver [] 0)).scales) = ([1], [2]) ∧
+    ((cycle (fun x r => x * r / 10) { allevProc := [[1, 2], [3]] } (exOver [(3, ⟨.good, 90, 90, .normal, 5⟩)] 90)).log.map (·.kind),
+      (cycle (fun x r => x * r / 10) { allevProc := [[1, 2], [3]] } (exOver [(3, ⟨.good, 90, 90, .normal, 5⟩)] 90)).scales) = ([], [3]) := by
+  decide
+
+example : Gen.procTrigger (fun x r => x * r / 10) (exOver [] 0).opt ⟨120, 120, .none⟩ = true ∧
+    Gen.procExpect (fun x r => x * r / 10) (exOver [] 0).opt < 120 := by decide
 
 /-- **C03 (progress of one cycle)**: all shards in sync, the cycle did not crash and more shards are
     allowed.  Then either the last requested shard count exceeds the current one, or *every*
